@@ -441,7 +441,7 @@ fn gen_dec_bytes(rng: &mut Rng) -> Vec<u8> {
                         v.push(*rng.pick(&[0x02u8, 0x7e, 0x01, 0x03]));
                     }
                     2 => v.extend([0xff; 10]),                             // overflow
-                    3 => v.extend(uvi(len + rng.below(3))),               // length off by a little
+                    3 => v.extend(uvi((len + rng.below(5)).saturating_sub(2))), // length off by a little, either way
                     4 => v.push(0),                                        // zero length
                     5 => v.extend(uvi(*rng.pick(&[1u64 << 32, u64::MAX, 1 << 63]))),
                     _ => v.extend(uvi(len)),
@@ -619,6 +619,26 @@ pub fn run(args: &Args, out: &mut Out) {
         }
         for b in [&b""[..], b"\n", b"/", b"/\n", b"\x00", b"\x80", b"\x01\n\n", b"\x02/\n\n", b"\x01/\n"] {
             op_dec(out, b);
+        }
+        // ls-response entries whose announced length misses the bytes really present by -2..+2, around the
+        // 1-/2-/3-byte varint boundaries (an entry length that overshoots by exactly one must be rejected, not indexed)
+        for body_len in [1usize, 2, 3, 126, 127, 128, 129, 130, 200, 16382, 16383, 16384, 16385] {
+            let mut body: Vec<u8> = std::iter::once(b'/').chain(std::iter::repeat(b'q').take(body_len.saturating_sub(2))).collect();
+            body.truncate(body_len.saturating_sub(1));
+            body.push(b'\n');
+            for delta in [-2i64, -1, 0, 1, 2] {
+                let announced = body_len as i64 + delta;
+                if announced < 0 {
+                    continue;
+                }
+                for (prefix, suffix) in [(&b""[..], &b""[..]), (b"", b"\n"), (b"\x03/a\n", b""), (b"\x03/a\n", b"\n")] {
+                    let mut v = prefix.to_vec();
+                    v.extend(uvi(announced as u64));
+                    v.extend_from_slice(&body);
+                    v.extend_from_slice(suffix);
+                    op_dec(out, &v);
+                }
+            }
         }
         let names = vec![b"/a".to_vec(), b"/b".to_vec()];
         for input in [&b""[..], b"\x00", b"\x80", b"\x80\x00", b"\x80\x80", b"\xff\xff\x03", b"\x13/multistream/1.0.0\n", b"\x13/multistream/1.0.0\n\x03/b\n", b"\x13/multistream/1.0.0\n\x03/c\n\x03ls\n\x03/a\nrest"] {
